@@ -67,7 +67,9 @@ pub fn run_line(line: &str) -> String {
 
 const WORDS: &[&str] = &["x", "foo", "_a1", "if", "else", "struct", "class", "true", "false", "unsigned", "this", "float4", "sizeof", "inout", "e5", "x1", "INF", "f", "h", "L", "u", "ul"];
 const SYMS: &[&str] = &["{", "}", "(", ")", "[", "]", "<", ">", ";", ",", "+", "++", "+=", "-", "--", "-=", "/", "/=", "%", "%=", "*", "*=", "&", "&&", "&=", "|", "||", "|=", "^", "^=", "!", "!=", "=", "==", "@", "~", ".", ":", "::", "?", "<<", ">>", "<=", ">=", "->", "..."];
-const TRIVIA: &[&str] = &[" ", "\t", "  ", "\n", "\r\n", "\\\n", "\\\r\n", "// c\n", "// a \\\n b\n", "/* c */", "/* a\n b */", "/**/", "//\n"];
+const TRIVIA: &[&str] = &[" ", "\t", "  ", "\n", "\r\n", "\\\n", "\\\r\n", "// c\n", "// a \\\n b\n", "/* c */", "/* a\n b */", "/**/", "//\n",
+    // comment bodies that begin or end with the characters of the delimiters
+    "/*/ c */", "/*/*/", "/***/", "/* * / */", "/*//*/", "//*\n", "///* c\n", "/* // */"];
 
 pub fn gen_int(rng: &mut Rng) -> String {
     let base = rng.below(3);
